@@ -65,12 +65,14 @@ def run(rep, tier, seed):
         un = lambda t: t["c"]["fam"] == "units" and t["c"]["from"] == "m" and t["c"]["to"] == "km"  # noqa: E731
         def inv(p):
             p["o"]["k10"] = -p["o"]["k10"]
+        def stale(p):
+            p["o"]["stats_follow"] = False
         cp = lambda t: t["c"]["fam"] == "comp" and t["c"]["metric"] == "rpe" and t["o"]["out"] == "ok" and len(t["o"]["ts"]) >= 2  # noqa: E731
         def shift(p):
             p["o"]["ts"] = p["o"]["ts"][1:] + p["o"]["ts"][:1]
         def title(p):
             p["o"]["title_ok"] = False
-        return mc.probe(traces, st, std, "ddof") + mc.probe(traces, un, inv, "factor") + mc.probe(traces, cp, shift, "ts") + mc.probe(traces, cp, title, "title")
+        return mc.probe(traces, st, std, "ddof") + mc.probe(traces, un, inv, "factor") + mc.probe(traces, un, stale, "stale") + mc.probe(traces, cp, shift, "ts") + mc.probe(traces, cp, title, "title")
     mc.judge(rep, cases, obs, probes, lambda c: {"fam": c["fam"], "metric": c.get("metric", "-"), "rel": c.get("rel", "-"),
                                                  "from": c.get("from", "-"), "to": c.get("to", "-")}, seed)
     rep.rule = ("statistics: TLC enumerates all integer arrays of length 1..5 over 0..3 (and proves the stated inequalities for the definitions) + "
